@@ -136,6 +136,53 @@ def _callee_of(prog, term):
     return None
 
 
+_KNOWN_TRAITS = None
+
+
+def _known_trait(trait):
+    """the trait existed on the tree the rules were written for (some known function is an impl of it); a NEW private trait introduced
+    by a refactoring is plumbing like a new helper: calls of its methods are inlined once the impl is resolved"""
+    global _KNOWN_TRAITS
+    if _KNOWN_TRAITS is None:
+        original_function("")
+        _KNOWN_TRAITS = set()
+        for k in _ORIGINALS or ():
+            m = re.match(r"^<.* as ([\w:]+)(?:<.*>)?>::", k)
+            if m:
+                _KNOWN_TRAITS.add(m.group(1))
+    return trait in _KNOWN_TRAITS
+
+
+def _type_subst(src, call_term):
+    """{type parameter name: concrete type} for a generic helper with exactly one type parameter inlined at a call site that names
+    the instance (`resolve::<Uid>(..)`): lets trait-method calls inside the helper (`T::from_number`) resolve to the impl"""
+    import re
+    names = set()
+    for b in src.blocks:
+        tt = b["term"]
+        if tt["t"] == "call":
+            for g in tt.get("gargs", []) or []:
+                if re.fullmatch(r"[A-Z][A-Za-z0-9]{0,8}", g or ""):
+                    names.add(g)
+    gargs = [g for g in (call_term.get("gargs") or []) if g and not g.startswith(("'", "{closure")) and not re.fullmatch(r"[A-Z][A-Za-z0-9]{0,8}", g)]
+    if len(names) == 1 and len(gargs) == 1 and len(call_term.get("gargs") or []) == 1:
+        return {next(iter(names)): gargs[0]}
+    return {}
+
+
+def _instantiate(prog, term, subst):
+    g = term.get("gargs") or []
+    if not any(x in subst for x in g):
+        return
+    term["gargs"] = [subst.get(x, x) for x in g]
+    fn = strip_generics(term.get("fn") or "")
+    if term.get("res") is None and "::" in fn and term["gargs"]:
+        trait, method = fn.rsplit("::", 1)
+        key = "<%s as %s>::%s" % (term["gargs"][0], trait, method)
+        if key in prog.bodies:
+            term["res"] = key
+
+
 def _inline_into(prog, raw, block_ids, stack, depth):
     if depth <= 0:
         return 0
@@ -159,7 +206,7 @@ def _inline_into(prog, raw, block_ids, stack, depth):
         if callee.exp or ck in stack or is_anchored(ck):
             continue
         decl = strip_generics(t.get("fn") or "")
-        if decl and decl != ck and decl.split("::")[0] in ("acmed", "tacd", "acme_common") and decl not in prog.bodies:
+        if decl and decl != ck and decl.split("::")[0] in ("acmed", "tacd", "acme_common") and decl not in prog.bodies and _known_trait(decl.rsplit("::", 1)[0]):
             # a call through a workspace TRAIT method (`HookEnvData::set_env`): rules name the trait method, whatever impl it
             # resolves to — a re-organised impl (blanket impl, moved impl) must not make these call sites disappear
             continue
@@ -186,6 +233,7 @@ def _inline_into(prog, raw, block_ids, stack, depth):
         body["locals"].extend(src.locals)
         raw["promoted"].extend(src.promoted)
         new_ids = []
+        subst = _type_subst(src, t)
         for j, sb in enumerate(src.blocks):
             nb = _shift(sb, off, boff, poff)
             _shift_term_targets(nb["term"], boff)
@@ -199,6 +247,8 @@ def _inline_into(prog, raw, block_ids, stack, depth):
                     nb["term"] = {"t": "goto", "target": target, "line": tt.get("line"), "exp": True, "file": tt.get("file", raw.get("file"))}
             if "file" not in nb["term"]:
                 nb["term"]["file"] = src.file
+            if subst and nb["term"]["t"] == "call":
+                _instantiate(prog, nb["term"], subst)
             nb["inl"] = ck
             blocks.append(nb)
             new_ids.append(boff + j)
